@@ -1027,9 +1027,17 @@ impl Run {
             }
             // this is the message the state machine is signing (first uncertified in its processing order)
             let subs = self.obs.subs.get(&tkey(&t)).cloned().unwrap_or_default();
+            // the store keeps ONE row per party (insert or replace): what a party has in the store is what it got
+            // stored LAST (`stored` is observed right after each submission, so submission order is storage order);
+            // a party that narrows its own contribution afterwards is not "another party's contribution
+            // disappearing" and the narrower signature is what counts towards the quorum
+            let mut last: BTreeMap<String, (bool, BTreeSet<u64>)> = BTreeMap::new();
+            for s in subs.iter().filter(|s| s.stored) {
+                last.insert(s.label.clone(), (s.honest, s.sig.to_protocol_signature().get_concatenation_signature_indices().into_iter().collect()));
+            }
             let mut indices = BTreeSet::new();
-            for s in subs.iter().filter(|s| s.honest && s.stored) {
-                indices.extend(s.sig.to_protocol_signature().get_concatenation_signature_indices());
+            for (_, idx) in last.values().filter(|(honest, _)| *honest) {
+                indices.extend(idx.iter().copied());
             }
             return if indices.len() as u64 >= self.model.params.k { Some(t) } else { None };
         }
